@@ -524,7 +524,16 @@ carquet_status_t carquet_delta_encode_int32(
     size_t* bytes_written) {
 
     if (num_values == 0) {
-        *bytes_written = 0;
+        /* The header is always there: block layout, zero values, first value 0 */
+        if (data_capacity < 40) {
+            return CARQUET_ERROR_ENCODE;
+        }
+        size_t pos = 0;
+        pos += write_uleb128(data + pos, DELTA_BLOCK_SIZE);
+        pos += write_uleb128(data + pos, DELTA_MINI_BLOCKS);
+        pos += write_uleb128(data + pos, 0);
+        pos += write_uleb128(data + pos, 0);
+        *bytes_written = pos;
         return CARQUET_OK;
     }
 
@@ -576,7 +585,16 @@ carquet_status_t carquet_delta_encode_int64(
     size_t* bytes_written) {
 
     if (num_values == 0) {
-        *bytes_written = 0;
+        /* The header is always there: block layout, zero values, first value 0 */
+        if (data_capacity < 40) {
+            return CARQUET_ERROR_ENCODE;
+        }
+        size_t pos = 0;
+        pos += write_uleb128(data + pos, DELTA_BLOCK_SIZE);
+        pos += write_uleb128(data + pos, DELTA_MINI_BLOCKS);
+        pos += write_uleb128(data + pos, 0);
+        pos += write_uleb128(data + pos, 0);
+        *bytes_written = pos;
         return CARQUET_OK;
     }
 
